@@ -144,7 +144,7 @@ def classify(case, out):
 
 
 def run(ctx):
-    pr = ctx.prove()
+    pr = ctx.prove(extra_targets=["ChainDB/Corr.vo"])
     ctx.cov["trusted_base"] = ["Coq 8.16.1 kernel + vm_compute", "Go toolchain + cgo-free overlay (VM stub unused: plain transfers)",
                                "engine harness/engines/chaindb + generator lib/chaindb.py", "consensus stub (SBP semantics, scripted LIB)",
                                "apply/spent abstraction of block execution (C01-C04)"]
